@@ -10,7 +10,7 @@
 #define MAXSLOT 64
 static uint8_t *out = NULL; static size_t out_len = 0, out_cap = 0;
 static uint32_t sched[64]; static int nsched = 0; static unsigned long wcalls = 0, fcalls = 0;
-static long fail_write_at = -1, fail_flush_at = -1;
+static long fail_write_at = -1, fail_flush_at = -1; static unsigned long interruptions = 0;
 
 static uint64_t sm(uint64_t *x) { uint64_t z = (*x += 0x9E3779B97F4A7C15ULL); z = (z ^ (z >> 30)) * 0xBF58476D1CE4E5B9ULL; z = (z ^ (z >> 27)) * 0x94D049BB133111EBULL; return z ^ (z >> 31); }
 static void gen(uint8_t *b, size_t n, uint64_t seed) { uint64_t s = seed; for (size_t i = 0; i < n; i++) { if ((i & 7) == 0) s = s; b[i] = (uint8_t)(sm(&seed) & 0xff); } (void)s; }
@@ -19,7 +19,8 @@ static int32_t wcb(const uint8_t *buf, uint32_t len, void *ctx, uint32_t *writte
   (void)ctx; wcalls++;
   if (fail_write_at >= 0 && (long)wcalls == fail_write_at) { puts("injected_write_failure"); return 5; }
   uint32_t n = len;
-  if (nsched > 0) { uint32_t m = sched[(wcalls - 1) % nsched]; if (m < n) n = m; if (n == 0 && len > 0) n = 1; }
+  /* a schedule entry of 0xFFFFFFFF: this call is interrupted (EINTR), nothing is taken */
+  if (nsched > 0) { uint32_t m = sched[(wcalls - 1) % nsched]; if (m == 0xFFFFFFFFu) { interruptions++; return 4; } if (m < n) n = m; if (n == 0 && len > 0) n = 1; }
   if (out_len + n > out_cap) { out_cap = (out_len + n) * 2 + 4096; out = realloc(out, out_cap); }
   memcpy(out + out_len, buf, n); out_len += n; *written = n; return 0;
 }
